@@ -194,7 +194,7 @@ func nonTrivialSpec(prop string, s *rt.Spec) bool {
 		return (s.Wrap && s.NArgs >= 4) || s.Bare || s.Shadow
 	case "C18":
 		return s.Emitters > 0 && (instr >= 2 || s.EmitNest)
-	case "C07", "C12", "C01", "C09":
+	case "C07", "C12", "C01", "C09", "C05", "C06":
 		return s.Units >= 2
 	case "C03":
 		return s.Conc != "" && s.Units >= 3
